@@ -224,6 +224,10 @@ void Groups::evalArguments( int argc, char* argv[]) noexcept( false)
       for (auto const& stored_group : mArgGroups)
       {
          stored_group.mpArgHandler->checkMissingMandatoryCardinality();
+         // also run the other final checks that Handler::evalArguments() does:
+         // arguments required by other arguments and the handler constraints
+         stored_group.mpArgHandler->mConstraints.checkRequired();
+         stored_group.mpArgHandler->checkGlobalConstraints();
       } // end for
    } // end if
 
